@@ -183,6 +183,28 @@ inline LD jac_block_err(const Spec& s, const MatL& got, const MatL& want, bool r
   return worst;
 }
 
+// every entry replaced by the largest magnitude of its block of the tangent partition (lin | ang | time | lin2 per element):
+// the scale against which block-relative Jacobian errors are measured
+inline MatL block_max_matrix(const Spec& s, const MatL& J) {
+  std::vector<int> id(s.dof(), 0);
+  int pid = 0;
+  for (size_t b = 0; b < s.e.size(); ++b) {
+    const Elem& e = s.e[b];
+    for (int i = 0; i < e.dof(); ++i) {
+      bool is_ang = e.k != K_RN && i >= e.ang0() && i < e.ang0() + e.nang();
+      bool is_time = e.k == K_SGAL3 && i == 9;
+      int sub = is_ang ? 1 : (is_time ? 2 : (e.k == K_SE23 && i >= 6 ? 3 : (e.k == K_SGAL3 && i >= 3 ? 3 : 0)));
+      id[s.dof_off((int)b) + i] = pid + sub;
+    }
+    pid += 4;
+  }
+  std::map<std::pair<int, int>, LD> mx;
+  for (int r = 0; r < J.rows(); ++r) for (int c = 0; c < J.cols(); ++c) { LD& m = mx[{id[r], id[c]}]; m = std::max(m, fabsl(J(r, c))); }
+  MatL B(J.rows(), J.cols());
+  for (int r = 0; r < J.rows(); ++r) for (int c = 0; c < J.cols(); ++c) B(r, c) = mx[{id[r], id[c]}];
+  return B;
+}
+
 // D x D matrix holding S[b] on the rows of element b that belong to linear (translation-like) tangent
 // components, 0 elsewhere: the rounding scale of quantities such as skew(p - t v) R inside an adjoint.
 inline MatL lin_row_scale(const Spec& s, const std::vector<LD>& S) {
@@ -287,6 +309,22 @@ using GroupT = R3<vf::Rat>; static const char* kName = "R3r";
 using GroupT = Bundle<vf::Rat, SE3, SO2, R3, SE2, SE_2_3>; static const char* kName = "B_SE3_SO2_R3_SE2_SE23_r";
 #elif VF_CFG == 49
 using GroupT = Bundle<vf::Rat, SGal3, SO3>; static const char* kName = "B_SGal3_SO3_r";
+#elif VF_CFG == 61
+using GroupT = SO2<vf::Dual<1>>; static const char* kName = "SO2j";
+#elif VF_CFG == 62
+using GroupT = SE2<vf::Dual<3>>; static const char* kName = "SE2j";
+#elif VF_CFG == 63
+using GroupT = SO3<vf::Dual<3>>; static const char* kName = "SO3j";
+#elif VF_CFG == 64
+using GroupT = SE3<vf::Dual<6>>; static const char* kName = "SE3j";
+#elif VF_CFG == 65
+using GroupT = SE_2_3<vf::Dual<9>>; static const char* kName = "SE_2_3j";
+#elif VF_CFG == 66
+using GroupT = SGal3<vf::Dual<10>>; static const char* kName = "SGal3j";
+#elif VF_CFG == 67
+using GroupT = R3<vf::Dual<3>>; static const char* kName = "R3j";
+#elif VF_CFG == 68
+using GroupT = Bundle<vf::Dual<10>, SE3, SO2, R3>; static const char* kName = "B_SE3_SO2_R3_j";
 #else
 #error "unknown VF_CFG"
 #endif
